@@ -114,7 +114,7 @@ func TrustedResourceURLFromConstant(url stringConstant) TrustedResourceURL {
 //   - `about:blank#`
 //
 // `<origin>` must contain only alphanumerics, '.', ':', '[', ']', or '-', and
-// `<pathStart>` is any character except `/` and `\`.
+// `<pathStart>` is any character except `/`, `\`, TAB, LF and CR.
 func TrustedResourceURLFormatFromConstant(format stringConstant, args map[string]string) (TrustedResourceURL, error) {
 	return trustedResourceURLFormat(string(format), args)
 }
@@ -212,7 +212,7 @@ func (t TrustedResourceURL) String() string {
 //   - `about:blank#`
 //
 // `<origin>` must contain only alphanumerics, '.', ':', '[', ']', or '-', and
-// `<pathStart>` is any character except `/` and `\`.
+// `<pathStart>` is any character except `/`, `\`, TAB, LF and CR.
 func TrustedResourceURLAppend(t TrustedResourceURL, s string) (TrustedResourceURL, error) {
 	if !safehtmlutil.IsSafeTrustedResourceURLPrefix(t.str) {
 		return TrustedResourceURL{}, fmt.Errorf("cannot append to TrustedResourceURL %q because it has an unsafe prefix", t)
